@@ -500,6 +500,13 @@ def label_rules(facts, rep, R3, ser, par):
             rep.ok(R3, {"fn": ser.name, "order": "record (key, len) -> write message -> write_label(offset, key)"})
         else:
             rep.violation(R3, ser.name, "label-write", "write_label is not called with (recorded offset, recorded key)", "%s:%s" % (ser.file, ser.line))
+    # the message loop does not leave while a minimal record (an empty message: terminator padded to 4 bytes) is ahead
+    from posloop import position_exit
+    stops, undec, npos = position_exit(par, 4)
+    if stops:
+        rep.violation(R3, par.name, "stops-early", "the message loop leaves on `%s` with the cursor at %d of %d bytes: a last empty message is never read" % (stops[0], stops[1], stops[1] + 4), "%s:%s" % (par.file, par.line))
+    elif undec:
+        rep.inconc(R3, "from_archive: a loop condition on the cursor position was not evaluated (%s)" % undec)
     # reader
     try:
         rpaths = enum_paths(par)
